@@ -47,7 +47,10 @@ def ellipse_perimeter_quad(a, b):
     from scipy.integrate import quad
 
     f = lambda t: math.sqrt((a * math.sin(t)) ** 2 + (b * math.cos(t)) ** 2)
-    v, err = quad(f, 0, math.pi / 2, epsabs=0, epsrel=1e-13, limit=400)
+    # the integrand has a kink of width min(a,b)/max(a,b) at one end: break the interval there (without the break points the
+    # adaptive rule reports 1e-13 but is off by 7e-10 at aspect ratio 100 - seen in a thorough run and corrected, DESIGN 8.5)
+    pts = sorted({min(max(math.atan2(k * b, a), 1e-12), math.pi / 2 - 1e-12) for k in (1 / 9, 1 / 3, 1, 3, 9)})
+    v, err = quad(f, 0, math.pi / 2, epsabs=0, epsrel=1e-13, limit=2000, points=pts)
     return 4 * v, 4 * err
 
 
@@ -120,7 +123,9 @@ def run(chk):
         cmp("circle.perimeter", [circ.perimeter, circ.circumference], [2 * PI * a] * 2)
         cmp("circle.eccentricity+iq", [circ.eccentricity, circ.iq], [0, 1], scale=1)
         cmp("ellipse.area", ell.area, area)
-        cmp("ellipse.eccentricity", ell.eccentricity, math.sqrt(max(ecc2, 0.0)), rel=1e-9 if ecc2 < 1e-6 else RT, scale=1 if ecc2 > 1e-20 else 1e8)
+        # e = sqrt(1 - (b/a)^2): the subtraction is exact to ~2u, so e carries an absolute error ~ 2u / e (near-ties cannot be judged finer)
+        e_exact = math.sqrt(max(ecc2, 0.0))
+        cmp("ellipse.eccentricity", ell.eccentricity, e_exact, rel=max(1e-9 if ecc2 < 1e-6 else RT, 1e-15 / max(e_exact, 1e-8)), scale=1 if ecc2 > 1e-20 else 1e8)
         Pq, Perr = ellipse_perimeter_quad(a, b)
         cmp("ellipse.perimeter", [ell.perimeter, ell.circumference], [Pq, Pq], rel=1e-10)
         iq_exact = min(4 * PI * area / Pq ** 2, 1.0)
